@@ -95,7 +95,10 @@ Definition taint_step (t : taint) (isreload : bool) (prev : option qconf) (conf 
            (gnames : list gname) (paths : list path) (s s' : ugm_state) (l' : ledger)
            (failing : list (who * path * N)) : taint :=
   let apps0 := filter (has_entry l') (t_apps t) in
-  if negb isreload then mkTaint apps0 (t_groups t) (t_excused t) else
+  (* a group that a tainted application has been linked to again carries the error from then on *)
+  let relinked := filter (fun g => existsb (fun e => mem (le_app e) (t_apps t) && link_is s' (le_user e) (le_app e) g) l' ||
+                                   existsb (fun e => mem (le_app e) (t_apps t) && link_is s (le_user e) (le_app e) g) l') gnames in
+  if negb isreload then mkTaint apps0 (t_groups t ++ relinked) (t_excused t) else
   let unlinked := flat_map (fun e => match link s (le_user e) (le_app e) with
                                      | Some g => if link_is s' (le_user e) (le_app e) g then [] else [le_app e]
                                      | None => []
@@ -105,7 +108,7 @@ Definition taint_step (t : taint) (isreload : bool) (prev : option qconf) (conf 
                        filter (fun g => existsb (fun p => named_in pc (Group g) p && negb (named_in cf (Group g) p)) paths) gnames
                    | _, _ => []
                    end in
-  mkTaint (apps0 ++ unlinked) (t_groups t ++ dropped_g) (filter (fun x => negb (snd x =? 5)) failing).
+  mkTaint (apps0 ++ unlinked) (t_groups t ++ relinked ++ dropped_g) (filter (fun x => negb (snd x =? 5)) failing).
 
 (* C05-group-reset-usage *)
 Definition known_usage (t : taint) (s : ugm_state) (l : ledger) (w : who) (h : path) : bool :=
